@@ -6,6 +6,7 @@ import (
 	"fmt"
 	"math"
 	"math/rand"
+	"reflect"
 
 	"github.com/kstenerud/go-concise-encoding/builder"
 	"github.com/kstenerud/go-concise-encoding/ce"
@@ -489,6 +490,32 @@ func c26Run[T any](c *fw.Ctx, n int, k c26Kind[T]) {
 			} else {
 				c.Inc("marshal_cbe_compared." + vn)
 			}
+		}
+	}
+	// the same elements as a fixed-size Go array, reached by the marshaler in non-addressable and addressable ways
+	// (by value, inside an interface list, through a pointer): the encoder's bytes must still be the helper's bytes
+	if n > 0 && n <= 64 && c26FirstDiff(data, want) < 0 {
+		arrT := reflect.ArrayOf(n, reflect.TypeOf(s).Elem())
+		pa := reflect.New(arrT)
+		reflect.Copy(pa.Elem(), reflect.ValueOf(s))
+		holders := []struct {
+			name string
+			v    interface{}
+		}{{"array-by-value", pa.Elem().Interface()}, {"array-in-interface-list", []interface{}{pa.Elem().Interface()}}, {"pointer-to-array", pa.Interface()}}
+		for _, h := range holders {
+			var mdoc []byte
+			var merr error
+			if p, st := fw.Guard(func() { mdoc, merr = ce.MarshalToCBEDocument(h.v, cfg) }); p != nil || merr != nil {
+				fail("marshal-cbe-failed:"+h.name, map[string]interface{}{"panic": fmt.Sprint(p), "stack": st, "err": errStr(merr)})
+				continue
+			}
+			res := decodeDoc(ce.NewCBEDecoder(cfg), mdoc, cfg, true)
+			at, cnt, adata, ok := c26ArrayBytes(res.Log)
+			if res.Panic != nil || res.Err != nil || !ok || at != k.at || cnt != uint64(n) || !c26SameElems(k, adata, bits) {
+				fail("marshal-cbe-decode-differs:"+h.name, map[string]interface{}{"err": errStr(res.Err), "panic": ev.PanicString(res.Panic), "doc": hexs(mdoc), "log": short(ev.LogString(res.Log), 400)})
+				continue
+			}
+			c.Inc("marshal_cbe_compared." + h.name)
 		}
 	}
 	if n <= 300 && !hasNaN {
